@@ -34,6 +34,7 @@ type zzPortCfg struct {
 	ports    []string
 	hasPorts bool
 	services []string
+	noSvcKey bool // the entry has no services key at all
 }
 
 type zzRunCfg struct {
@@ -89,20 +90,24 @@ func zzStubPrimitiveDecode(md *toml.MetaData, prim toml.Primitive, v interface{}
 	}:
 		zzSvcIdx++
 		x.Type = "zzsvc"
-	case *struct {
-		Port     string   `toml:"port"`
-		Ports    []string `toml:"ports"`
-		Services []string `toml:"services"`
-	}:
+	default:
+		// a [[port]] entry: whatever (named or anonymous) struct Run decodes it into, the
+		// fields are found by their toml tags; keys absent from the entry are not assigned
 		p := zzCfg.ports[zzPortIdx]
-		zzPortIdx++
+		kv := map[string]interface{}{}
 		if p.hasPort {
-			x.Port = p.port
+			kv["port"] = p.port
 		}
 		if p.hasPorts {
-			x.Ports = p.ports
+			kv["ports"] = p.ports
 		}
-		x.Services = p.services
+		if !p.noSvcKey {
+			kv["services"] = p.services
+		}
+		if tags := zzAssignByTag(v, "toml", kv); tags != "port,ports,services" {
+			return errors.New("zz: PrimitiveDecode model: unexpected target " + tags)
+		}
+		zzPortIdx++
 	}
 	return nil
 }
@@ -183,7 +188,9 @@ func zzToml(c *zzRunCfg) string {
 		if p.hasPorts {
 			fmt.Fprintf(&b, "ports=%s\n", q(p.ports))
 		}
-		fmt.Fprintf(&b, "services=%s\n", q(p.services))
+		if !p.noSvcKey {
+			fmt.Fprintf(&b, "services=%s\n", q(p.services))
+		}
 	}
 	return b.String()
 }
@@ -340,7 +347,7 @@ func zzH_C19_runports() {
 		case 2:
 			pc.services = []string{"nosuch"}
 		case 3:
-			pc.services = nil
+			pc.services, pc.noSvcKey = nil, true
 		}
 		c.ports = append(c.ports, pc)
 	}
